@@ -144,6 +144,8 @@ type World struct {
 	SideEffects int
 	// DetachInCoercion counts detach effects executed.
 	DetachInCoercion int
+	// FlexReads counts reads of implementation-chosen NaN encodings within the operation that stored them (see noteFlexRead).
+	FlexReads int
 	// HugeIntConversions counts integer element conversions of Numbers with 2^63 <= |x| < 2^85.
 	HugeIntConversions int
 	CurSrc             *Array
